@@ -33,7 +33,9 @@ ASSUMPTIONS = [
 FINDINGS = {}
 EVENTS = ['on_position_change', 'on_rotation_change', 'on_scale_change']
 PROPS = ['position', 'rotation', 'scale']
-ROT2 = [370, -10, 720, 360, 0, -0.0, 1e-9, -1e-9, 1000000.5, 359.99999, 360.0000001, 45, 12.5, -725, 3600, 90.0]
+ROT2 = [370, -10, 720, 360, 0, -0.0, 1e-9, -1e-9, 1000000.5, 359.99999, 360.0000001, 45, 12.5, -725, 3600, 90.0,
+        # angles whose reduction modulo 360 is not a fixed point of the reduction in floating point
+        -1e-15, -5e-324, -7.016709298534876e-15, 360 - 1e-14, 720 - 1e-13]
 COMP = [0, 1, -2, 0.5, 3.25, -7.75, 100, 1e-3]
 
 
